@@ -14,9 +14,11 @@ use roughenough::version::Version;
 use std::net::{IpAddr, Ipv4Addr, Ipv6Addr, SocketAddr, UdpSocket};
 use std::time::Duration;
 
-/// address ids: 1..=3 reachable (127.0.0.id), >= 100 unreachable from an IPv4 socket (::id)
+/// address ids: 1..=3 reachable (127.0.0.id : the receiver's port); 51..=53 the SAME IP addresses with UDP port 0
+/// (`send_to` fails with EINVAL — failed and successful sends for one client address); >= 100 unreachable from
+/// an IPv4 socket (::id, `send_to` fails with EAFNOSUPPORT)
 fn ip_of(id: u16) -> IpAddr {
-    if id < 100 { IpAddr::V4(Ipv4Addr::new(127, 0, 0, id as u8)) } else { IpAddr::V6(Ipv6Addr::new(0, 0, 0, 0, 0, 0, 0, id)) }
+    if id < 50 { IpAddr::V4(Ipv4Addr::new(127, 0, 0, id as u8)) } else if id < 100 { IpAddr::V4(Ipv4Addr::new(127, 0, 0, (id - 50) as u8)) } else { IpAddr::V6(Ipv6Addr::new(0, 0, 0, 0, 0, 0, 0, id)) }
 }
 fn id_of(ip: &IpAddr) -> u16 {
     match ip {
@@ -53,7 +55,7 @@ fn one(out: &mut Out, ver: char, per_client: bool, seed: &[u8], entries: Vec<Ent
             let mut resp = Responder::new(version, &mc, &mut ltk);
             let mut sock = mio::net::UdpSocket::bind(&"0.0.0.0:0".parse().unwrap()).expect("bind");
             for e in &entries {
-                let a = if e.addr < 100 { receivers[e.addr as usize - 1].local_addr().unwrap() } else { SocketAddr::new(ip_of(e.addr), 4000 + e.addr) };
+                let a = if e.addr < 50 { receivers[e.addr as usize - 1].local_addr().unwrap() } else if e.addr < 100 { SocketAddr::new(ip_of(e.addr), 0) } else { SocketAddr::new(ip_of(e.addr), 4000 + e.addr) };
                 if ver == 'I' { resp.add_ietf_request(&e.request, e.nonce.clone(), a); } else { resp.add_classic_request(e.nonce.clone(), a); }
             }
             let mut stats: Box<dyn ServerStats> = if per_client { Box::new(PerClientStats::new()) } else { Box::new(AggregatedStats::new()) };
@@ -66,16 +68,19 @@ fn one(out: &mut Out, ver: char, per_client: bool, seed: &[u8], entries: Vec<Ent
         });
         // what actually arrived
         let mut recv: Vec<String> = vec![];
+        let mut dgs: Vec<String> = vec![];
         for (k, s) in receivers.iter().enumerate() {
-            let mut buf = [0u8; 4096];
+            let mut buf = [0u8; 8192];
             while let Ok((n, _)) = s.recv_from(&mut buf) {
                 recv.push(format!("{}:{}", k + 1, n));
+                dgs.push(format!("{}:{}", k + 1, hex(&buf[..n])));
             }
         }
         recv.sort();
+        let dgs = if dgs.is_empty() { "-".to_string() } else { dgs.join(",") };
         match r {
-            None => format!("panic=1 recv={}", if recv.is_empty() { "-".into() } else { recv.join(",") }),
-            Some((tot, per)) => format!("panic=0 tot={} per={} recv={}", tot, if per.is_empty() { "-".into() } else { per.join("|") }, if recv.is_empty() { "-".into() } else { recv.join(",") }),
+            None => format!("panic=1 recv={} dg={}", if recv.is_empty() { "-".into() } else { recv.join(",") }, dgs),
+            Some((tot, per)) => format!("panic=0 tot={} per={} recv={} dg={}", tot, if per.is_empty() { "-".into() } else { per.join("|") }, if recv.is_empty() { "-".into() } else { recv.join(",") }, dgs),
         }
     });
     out.case("respsend", &[&ver.to_string(), if per_client { "pc" } else { "agg" }, &hex(seed), &es], &imp);
@@ -101,7 +106,7 @@ pub fn run(ctx: &Ctx) {
             _ => r.chance(2, 3),
         }).collect();
         let entries: Vec<Entry> = pat.iter().map(|&ok| {
-            let addr = if ok { r.range(1, 3) as u16 } else { 100 + r.below(3) as u16 };
+            let addr = if ok { r.range(1, 3) as u16 } else if r.chance(1, 2) { 100 + r.below(3) as u16 } else { 51 + r.below(3) as u16 };
             if ver == 'I' {
                 let nonce = r.bytes(32);
                 let request = ietf_request(&VER13, None, &nonce, 1024);
